@@ -120,6 +120,122 @@
                 }
                 if a[0] == "u8" { run::<u8>(a) } else { run::<u16>(a) }
             }
+
+            // vecnew <Type> <len> <w> <h>
+            "vecnew" => {
+                let (l, w, h) = (hx(&a[1]) as usize, a[2].parse::<usize>().unwrap(), a[3].parse::<usize>().unwrap());
+                let d = vec![[0.5f32, 0.25, 1.0]; l];
+                let (ok, dims) = match a[0].as_str() {
+                    "Rgb" => match Rgb::new(d, w, h, TC::SRGB, CP::BT709) { Ok(x) => (true, (x.width(), x.height(), x.data().len())), Err(_) => (false, (0, 0, 0)) },
+                    "LinearRgb" => match LinearRgb::new(d, w, h) { Ok(x) => (true, (x.width(), x.height(), x.data().len())), Err(_) => (false, (0, 0, 0)) },
+                    "Xyb" => match Xyb::new(d, w, h) { Ok(x) => (true, (x.width(), x.height(), x.data().len())), Err(_) => (false, (0, 0, 0)) },
+                    _ => match Hsl::new(d, w, h) { Ok(x) => (true, (x.width(), x.height(), x.data().len())), Err(_) => (false, (0, 0, 0)) },
+                };
+                let want = w.checked_mul(h) == Some(l);
+                out(ok != want || (ok && dims != (w, h, l)), format!("{}::new(len {}, {}, {}) ok={} want={}", a[0], l, w, h, ok, want));
+            }
+
+            // meta <what> <mc> <cp> <tc> <cp2> <tc2>: the C14 contract on one concrete metadata triple
+            "meta" => {
+                use crate::ConversionError as E;
+                let (mc, cp, tc) = (MC_ALL[hx(&a[1]) as usize], CP_ALL[hx(&a[2]) as usize], TC_ALL[hx(&a[3]) as usize]);
+                let (cp2, tc2) = (CP_ALL[hx(&a[4]) as usize], TC_ALL[hx(&a[5]) as usize]);
+                let std_mc = MC_STD.contains(&mc); let sup_tc = TC_SUP.contains(&tc); let sup_cp = CP_SUP.contains(&cp);
+                let c = |cp: CP, tc: TC| YuvConfig { transfer_characteristics: tc, color_primaries: cp, ..cfg(8, false, mc, 0, 0) };
+                let y1 = |cc: YuvConfig| Yuv::new(Frame { planes: [Plane::from_slice(&[100u8], 1), Plane::from_slice(&[120u8], 1), Plane::from_slice(&[140u8], 1)] }, cc).unwrap();
+                let names = |e: E, um: bool, up: bool, ut: bool| match e {
+                    E::UnsupportedMatrixCoefficients => um && !std_mc,
+                    E::UnsupportedColorPrimaries => (up && !sup_cp) || (um && !std_mc && (cp == CP::ST428 || !sup_cp)),
+                    E::UnsupportedTransferCharacteristic => ut && !sup_tc,
+                    _ => false,
+                };
+                let px = vec![[0.25f32, 0.5, 0.75]];
+                let mut bad = Vec::new();
+                match a[0].as_str() {
+                    "yuvrgb" => {
+                        let d = Rgb::try_from(&y1(c(cp, tc)));
+                        let e = Yuv::<u8>::try_from((&Rgb::new(px.clone(), 1, 1, tc, cp).unwrap(), c(cp, tc)));
+                        if d.is_ok() != e.is_ok() { bad.push("asymmetric".to_string()); }
+                        if std_mc && d.is_err() { bad.push("standard matrix failed".to_string()); }
+                        if let (Err(x), Err(y)) = (&d, &e) { if x != y { bad.push(format!("different errors {:?} {:?}", x, y)); } if !names(*x, true, false, false) { bad.push(format!("{:?} names no offender", x)); } }
+                    }
+                    "ignore" => {
+                        if std_mc {
+                            let p = Rgb::try_from(&y1(c(cp, tc))).unwrap(); let q = Rgb::try_from(&y1(c(cp2, tc2))).unwrap();
+                            if p.data() != q.data() { bad.push("decode depends on transfer/primaries".to_string()); }
+                            let e1 = Yuv::<u8>::try_from((&Rgb::new(px.clone(), 1, 1, tc, cp).unwrap(), c(cp, tc))).unwrap();
+                            let e2 = Yuv::<u8>::try_from((&Rgb::new(px.clone(), 1, 1, tc2, cp2).unwrap(), c(cp2, tc2))).unwrap();
+                            if (0..3).any(|k| e1.data()[k].p(0, 0) != e2.data()[k].p(0, 0)) { bad.push("encode depends on transfer/primaries".to_string()); }
+                        }
+                    }
+                    "gamma" => {
+                        let f = LinearRgb::try_from(Rgb::new(px.clone(), 1, 1, tc, cp).unwrap());
+                        let r = Rgb::try_from((LinearRgb::new(px.clone(), 1, 1).unwrap(), tc, cp));
+                        if f.is_ok() != r.is_ok() { bad.push("asymmetric".to_string()); }
+                        if sup_tc && sup_cp && f.is_err() { bad.push("supported pair failed".to_string()); }
+                        if let (Err(x), Err(y)) = (&f, &r) { if x != y { bad.push(format!("different errors {:?} {:?}", x, y)); } if !names(*x, false, true, true) { bad.push(format!("{:?} names no offender", x)); } }
+                    }
+                    _ => {
+                        let f = LinearRgb::try_from(&y1(c(cp, tc)));
+                        let r = Yuv::<u8>::try_from((LinearRgb::new(px.clone(), 1, 1).unwrap(), c(cp, tc)));
+                        let x = Xyb::try_from(&y1(c(cp, tc)));
+                        let z = Yuv::<u8>::try_from((Xyb::new(vec![[0.0, 0.5, 0.5]], 1, 1).unwrap(), c(cp, tc)));
+                        if f.is_ok() != r.is_ok() || x.is_ok() != z.is_ok() || x.is_ok() != f.is_ok() { bad.push("asymmetric".to_string()); }
+                        if std_mc && sup_tc && sup_cp && (f.is_err() || x.is_err()) { bad.push("standard combination failed".to_string()); }
+                        for e in [f.as_ref().err(), x.as_ref().err(), r.as_ref().err(), z.as_ref().err()].into_iter().flatten() { if !names(*e, true, true, true) { bad.push(format!("{:?} names no offender", e)); } }
+                    }
+                }
+                out(!bad.is_empty(), format!("{:?}/{:?}/{:?}: {}", mc, cp, tc, if bad.is_empty() { "contract holds".to_string() } else { bad.join("; ") }));
+            }
+
+            // unspec yuvres m p t w h | rgbres p t | label|labelx m p t r g b
+            "unspec" => {
+                match a[0].as_str() {
+                    "yuvres" => {
+                        let (mc, cp, tc) = (MC_ALL[hx(&a[1]) as usize], CP_ALL[hx(&a[2]) as usize], TC_ALL[hx(&a[3]) as usize]);
+                        let (w, h) = (a[4].parse::<usize>().unwrap(), a[5].parse::<usize>().unwrap());
+                        let mut f: Frame<u8> = Frame { planes: [Plane::from_slice(&[1u8], 1), Plane::from_slice(&[2u8], 1), Plane::from_slice(&[3u8], 1)] };
+                        for p in 0..3 { f.planes[p].cfg.width = w; f.planes[p].cfg.height = h; }
+                        let c = YuvConfig { transfer_characteristics: tc, color_primaries: cp, ..cfg(8, false, mc, 0, 0) };
+                        let r = Yuv::new(f, c).unwrap().config();
+                        let wm = if mc != MC::Unspecified { mc } else if w >= 1280 || h > 576 { MC::BT709 } else if h == 576 { MC::BT470BG } else { MC::ST170M };
+                        let wp = if cp != CP::Unspecified { cp } else if wm == MC::BT2020NonConstantLuminance || wm == MC::BT2020ConstantLuminance { CP::BT2020 }
+                            else if wm == MC::BT709 || w >= 1280 || h > 576 { CP::BT709 } else if h == 576 { CP::BT470BG } else if h == 480 || h == 488 { CP::ST170M } else { CP::BT709 };
+                        let wt = if tc == TC::Unspecified { TC::BT1886 } else { tc };
+                        out(r.matrix_coefficients != wm || r.color_primaries != wp || r.transfer_characteristics != wt,
+                            format!("{}x{} {:?}/{:?}/{:?} -> {:?}/{:?}/{:?}, documented {:?}/{:?}/{:?}", w, h, mc, cp, tc, r.matrix_coefficients, r.color_primaries, r.transfer_characteristics, wm, wp, wt));
+                    }
+                    "rgbres" => {
+                        let (cp, tc) = (CP_ALL[hx(&a[1]) as usize], TC_ALL[hx(&a[2]) as usize]);
+                        let r = Rgb::new(vec![[0.25, 0.5, 0.75]], 1, 1, tc, cp).unwrap();
+                        let wt = if tc == TC::Unspecified { TC::SRGB } else { tc }; let wp = if cp == CP::Unspecified { CP::BT709 } else { cp };
+                        let mut bad = r.transfer() != wt || r.primaries() != wp;
+                        if let Ok(q) = Rgb::try_from((LinearRgb::new(vec![[0.25, 0.5, 0.75]], 1, 1).unwrap(), tc, cp)) { bad |= q.transfer() != wt || q.primaries() != wp; }
+                        out(bad, format!("{:?}/{:?} -> {:?}/{:?}", tc, cp, r.transfer(), r.primaries()));
+                    }
+                    _ => {
+                        let (mc, cp, tc) = (MC_ALL[hx(&a[1]) as usize], CP_ALL[hx(&a[2]) as usize], TC_ALL[hx(&a[3]) as usize]);
+                        let px = vec![[fb(&a[4]), fb(&a[5]), fb(&a[6])]];
+                        let c = YuvConfig { transfer_characteristics: tc, color_primaries: cp, ..cfg(8, false, mc, 0, 0) };
+                        let conv = |cc: YuvConfig| if a[0] == "labelx" { Yuv::<u8>::try_from((Xyb::new(px.clone(), 1, 1).unwrap(), cc)) } else { Yuv::<u8>::try_from((LinearRgb::new(px.clone(), 1, 1).unwrap(), cc)) };
+                        match conv(c) {
+                            Err(e) => out(false, format!("conversion fails with {:?}: clause vacuous", e)),
+                            Ok(o1) => {
+                                let l = o1.config();
+                                match conv(l) {
+                                    Err(e) => out(true, format!("stored config {:?} is not convertible: {:?}", l, e)),
+                                    Ok(o2) => {
+                                        // the property's criterion: within the C09 budget max(1, 0.015*(2^n-1)) = 3 codes at 8 bit
+                                        let d = (0..3).map(|k| (i32::from(o1.data()[k].p(0, 0)) - i32::from(o2.data()[k].p(0, 0))).abs()).max().unwrap();
+                                        out(d > 3, format!("stored label {:?}/{:?}/{:?}: codes {:?} vs re-encoded under the label {:?} (max diff {})", l.matrix_coefficients, l.color_primaries, l.transfer_characteristics,
+                                            [o1.data()[0].p(0, 0), o1.data()[1].p(0, 0), o1.data()[2].p(0, 0)], [o2.data()[0].p(0, 0), o2.data()[1].p(0, 0), o2.data()[2].p(0, 0)], d));
+                                    }
+                                }
+                            }
+                        }
+                    }
+                }
+            }
             _ => { eprintln!("unknown replay kind {}", kind); std::process::exit(64); }
         }
     }
